@@ -59,7 +59,7 @@ func Tokens(name string) *TokenTable {
 	return t
 }
 
-var fmtArtefact = regexp.MustCompile(`%!\w?\(|%!\(|%!$`)
+var fmtArtefact = regexp.MustCompile("%!.?\\(|%!$|\\((MISSING|BADINDEX|NOVERB|BADWIDTH|BADPREC)\\)|%!\\(EXTRA ")
 
 // WarnProblems evaluates the C07 obligations for one warning emitted while `physFile`
 // (a file of fset) is being analysed. It returns the list of violated obligations.
